@@ -2183,6 +2183,13 @@ void resize_target_update_count(struct cds_lfht *ht,
 {
 	count = max(count, MIN_TABLE_SIZE);
 	count = min(count, ht->max_nr_buckets);
+	/*
+	 * The table size is always a power of two: round the target up to
+	 * the size a grow/shrink can actually reach (still at most
+	 * max_nr_buckets, which is itself a power of two), otherwise
+	 * _do_cds_lfht_resize() would never see size == resize_target.
+	 */
+	count = 1UL << cds_lfht_get_count_order_ulong(count);
 	uatomic_store(&ht->resize_target, count);
 }
 
